@@ -59,6 +59,17 @@ CHECKS = {
         design_ref="DESIGN.md 7/C08",
         note="E1/E2; effects-based judgement; no boundary instants; complete for n<=3 in quick, n=4 sampled",
         technique="TLA+ decision table (TLC exhaustive) + TLC validation of real handler activations on fakes"),
+    "C10": dict(
+        category="fault_enumeration",
+        text="From per-node initial states drawn from the product of read-only/offline flags, sources (incl. stale masters and "
+             "an unregistered decoy server), replication thread/error states and semi-sync flags of a 3-4 node cluster the "
+             "real manager runs 20 rounds on the fakes, with one random failing statement in a third of the runs; TLC judges "
+             "the final ground truth (read-only replicas following the master within the repair budget, master restored) and "
+             "the safety observations collected on the way (master key untouched, decoy server silent, never self, "
+             "RESET REPLICA ALL only under the aggressive-mode limit and cooldown) with RepairRows.tla.",
+        design_ref="DESIGN.md 7/C10",
+        note="failover off; every mysync alive; E4/E5; stale-master clause judged on what was seen on the way",
+        technique="initial-state grid + fault injection on real code over fakes; TLC validation of end states and safety logs"),
     "C12": dict(
         category="model_checking",
         text="Closed form proved for all n,w with TLAPS on Quorum.tla; TLC checks the clauses exhaustively for "
